@@ -74,7 +74,8 @@ fn normal(c: &CandidateValue<K>) -> bool {
             !r.degenerate() && !(matches!(r.start, Bound::Unbounded) && matches!(r.end, Bound::Unbounded) && r.null_included)
                 && !(matches!((&r.start, &r.end), (Bound::Included(a), Bound::Included(b)) if a == b))
         }
-        CandidateValue::Multiple(m) => m.len() >= 2,
+        // at least two values, each listed once (vectors in these harnesses have at most 3 elements)
+        CandidateValue::Multiple(m) => m.len() >= 2 && m[0] != m[1] && (m.len() < 3 || (m[0] != m[2] && m[1] != m[2])),
         _ => true,
     }
 }
@@ -161,24 +162,79 @@ pub(crate) fn c06_range_intersect_exact() {
 }
 
 // ---- CandidateValue without Multiple: loop-free => complete ----------------------------------
-// @harness c06_intersect_exact_nomulti tier=quick kind=complete unwindset="swap_nonoverlapping=10"
-// @ob CandidateValue::intersect over all 4x4 pairs of {Impossible, Single, Range, All}: p in c1' <=> p in c1 and p in c2, for every probe; result satisfies the invariant and is in normal form
+// @harness c06_intersect_exact_nomulti_impossible tier=quick heavy=1 kind=complete unwindset="swap_nonoverlapping=10"
+// @ob CandidateValue::intersect of Impossible with each of {Impossible, Single, Range, All}: p in c1' <=> p in c1 and p in c2, for every probe; result satisfies the invariant and is in normal form
 #[kani::proof]
-#[kani::unwind(2)]
-pub(crate) fn c06_intersect_exact_nomulti() {
-    let (s1, s2) = (vk::any_u8(), vk::any_u8());
-    split4!(s1, k1 => {
-        split4!(s2, k2 => {
-            let (mut c1, c2) = (mk_cand(k1, 0), mk_cand(k2, 0));
-            let p = any_probe();
-            let before = mem(&c1, &p) && mem(&c2, &p);
-            verif_cover!(before, "common member reachable");
-            c1.intersect(c2);
-            assert!(inv(&c1), "invariant preserved");
-            assert!(mem(&c1, &p) == before, "intersection is exact");
-            assert!(normal(&c1), "result is normalized");
-            core::mem::forget(c1);
-        })
+#[kani::unwind(3)]
+pub(crate) fn c06_intersect_exact_nomulti_impossible() {
+    let s2 = vk::any_u8();
+    split4!(s2, k2 => {
+        let (mut c1, c2) = (mk_cand(0, 0), mk_cand(k2, 0));
+        let p = any_probe();
+        let before = mem(&c1, &p) && mem(&c2, &p);
+        verif_cover!(!before, "Impossible has no member in common with anything");
+        c1.intersect(c2);
+        assert!(inv(&c1), "invariant preserved");
+        assert!(mem(&c1, &p) == before, "intersection is exact");
+        assert!(normal(&c1), "result is normalized");
+        core::mem::forget(c1);
+    });
+}
+
+// @harness c06_intersect_exact_nomulti_single tier=quick heavy=1 kind=complete unwindset="swap_nonoverlapping=10"
+// @ob CandidateValue::intersect of Single with each of {Impossible, Single, Range, All}: p in c1' <=> p in c1 and p in c2, for every probe; result satisfies the invariant and is in normal form
+#[kani::proof]
+#[kani::unwind(3)]
+pub(crate) fn c06_intersect_exact_nomulti_single() {
+    let s2 = vk::any_u8();
+    split4!(s2, k2 => {
+        let (mut c1, c2) = (mk_cand(1, 0), mk_cand(k2, 0));
+        let p = any_probe();
+        let before = mem(&c1, &p) && mem(&c2, &p);
+        verif_cover!(before, "common member reachable");
+        c1.intersect(c2);
+        assert!(inv(&c1), "invariant preserved");
+        assert!(mem(&c1, &p) == before, "intersection is exact");
+        assert!(normal(&c1), "result is normalized");
+        core::mem::forget(c1);
+    });
+}
+
+// @harness c06_intersect_exact_nomulti_range tier=quick heavy=1 kind=complete unwindset="swap_nonoverlapping=10"
+// @ob CandidateValue::intersect of Range with each of {Impossible, Single, Range, All}: p in c1' <=> p in c1 and p in c2, for every probe; result satisfies the invariant and is in normal form
+#[kani::proof]
+#[kani::unwind(3)]
+pub(crate) fn c06_intersect_exact_nomulti_range() {
+    let s2 = vk::any_u8();
+    split4!(s2, k2 => {
+        let (mut c1, c2) = (mk_cand(2, 0), mk_cand(k2, 0));
+        let p = any_probe();
+        let before = mem(&c1, &p) && mem(&c2, &p);
+        verif_cover!(before, "common member reachable");
+        c1.intersect(c2);
+        assert!(inv(&c1), "invariant preserved");
+        assert!(mem(&c1, &p) == before, "intersection is exact");
+        assert!(normal(&c1), "result is normalized");
+        core::mem::forget(c1);
+    });
+}
+
+// @harness c06_intersect_exact_nomulti_all tier=quick heavy=1 kind=complete unwindset="swap_nonoverlapping=10"
+// @ob CandidateValue::intersect of All with each of {Impossible, Single, Range, All}: p in c1' <=> p in c1 and p in c2, for every probe; result satisfies the invariant and is in normal form
+#[kani::proof]
+#[kani::unwind(3)]
+pub(crate) fn c06_intersect_exact_nomulti_all() {
+    let s2 = vk::any_u8();
+    split4!(s2, k2 => {
+        let (mut c1, c2) = (mk_cand(3, 0), mk_cand(k2, 0));
+        let p = any_probe();
+        let before = mem(&c1, &p) && mem(&c2, &p);
+        verif_cover!(before, "common member reachable");
+        c1.intersect(c2);
+        assert!(inv(&c1), "invariant preserved");
+        assert!(mem(&c1, &p) == before, "intersection is exact");
+        assert!(normal(&c1), "result is normalized");
+        core::mem::forget(c1);
     });
 }
 
@@ -221,9 +277,8 @@ pub(crate) fn c06_exclude_nomulti() {
 }
 
 // ---- with Multiple: bounded vectors ---------------------------------------------------------
-fn check_intersect(a: CandidateValue<K>, b: CandidateValue<K>) {
+fn check_intersect(a: CandidateValue<K>, b: CandidateValue<K>, flip: bool) {
     let p = any_probe();
-    let flip = vk::any_bool();
     let before = mem(&a, &p) && mem(&b, &p);
     verif_cover!(true, "reached");
     let (mut c1, c2) = if flip { (b, a) } else { (a, b) };
@@ -234,122 +289,286 @@ fn check_intersect(a: CandidateValue<K>, b: CandidateValue<K>) {
     core::mem::forget(c1);
 }
 
-// @harness c06_intersect_multi1_impossible tier=quick kind=bounded bound="Multiple vector of length 1" timeout=1200 unwindset="swap_nonoverlapping=10"
-// @ob CandidateValue::intersect of Multiple(len 1) with impossible in either operand order: exact for every probe, invariant preserved, normalized
+// @harness c06_intersect_multi1_impossible_self tier=quick heavy=1 kind=bounded bound="Multiple vector of length 1" timeout=1200 unwindset="swap_nonoverlapping=10"
+// @ob CandidateValue::intersect of Multiple(len 1) with impossible with the Multiple as receiver: exact for every probe, invariant preserved, normalized
 #[kani::proof]
 #[kani::unwind(3)]
-pub(crate) fn c06_intersect_multi1_impossible() {
-    check_intersect(mk_cand(C_MULTI, 1), mk_cand(0, 0));
+pub(crate) fn c06_intersect_multi1_impossible_self() {
+    check_intersect(mk_cand(C_MULTI, 1), mk_cand(0, 0), false);
 }
 
-// @harness c06_intersect_multi1_single tier=quick kind=bounded bound="Multiple vector of length 1" timeout=1200 unwindset="swap_nonoverlapping=10"
-// @ob CandidateValue::intersect of Multiple(len 1) with single in either operand order: exact for every probe, invariant preserved, normalized
+// @harness c06_intersect_multi1_impossible_other tier=quick heavy=1 kind=bounded bound="Multiple vector of length 1" timeout=1200 unwindset="swap_nonoverlapping=10"
+// @ob CandidateValue::intersect of Multiple(len 1) with impossible with the Multiple as argument: exact for every probe, invariant preserved, normalized
 #[kani::proof]
 #[kani::unwind(3)]
-pub(crate) fn c06_intersect_multi1_single() {
-    check_intersect(mk_cand(C_MULTI, 1), mk_cand(1, 0));
+pub(crate) fn c06_intersect_multi1_impossible_other() {
+    check_intersect(mk_cand(C_MULTI, 1), mk_cand(0, 0), true);
 }
 
-// @harness c06_intersect_multi1_range tier=quick kind=bounded bound="Multiple vector of length 1" timeout=1200 unwindset="swap_nonoverlapping=10"
-// @ob CandidateValue::intersect of Multiple(len 1) with range in either operand order: exact for every probe, invariant preserved, normalized
+// @harness c06_intersect_multi1_single_self tier=quick heavy=1 kind=bounded bound="Multiple vector of length 1" timeout=1200 unwindset="swap_nonoverlapping=10"
+// @ob CandidateValue::intersect of Multiple(len 1) with single with the Multiple as receiver: exact for every probe, invariant preserved, normalized
 #[kani::proof]
 #[kani::unwind(3)]
-pub(crate) fn c06_intersect_multi1_range() {
-    check_intersect(mk_cand(C_MULTI, 1), mk_cand(2, 0));
+pub(crate) fn c06_intersect_multi1_single_self() {
+    check_intersect(mk_cand(C_MULTI, 1), mk_cand(1, 0), false);
 }
 
-// @harness c06_intersect_multi1_all tier=quick kind=bounded bound="Multiple vector of length 1" timeout=1200 unwindset="swap_nonoverlapping=10"
-// @ob CandidateValue::intersect of Multiple(len 1) with all in either operand order: exact for every probe, invariant preserved, normalized
+// @harness c06_intersect_multi1_single_other tier=quick heavy=1 kind=bounded bound="Multiple vector of length 1" timeout=1200 unwindset="swap_nonoverlapping=10"
+// @ob CandidateValue::intersect of Multiple(len 1) with single with the Multiple as argument: exact for every probe, invariant preserved, normalized
 #[kani::proof]
 #[kani::unwind(3)]
-pub(crate) fn c06_intersect_multi1_all() {
-    check_intersect(mk_cand(C_MULTI, 1), mk_cand(3, 0));
+pub(crate) fn c06_intersect_multi1_single_other() {
+    check_intersect(mk_cand(C_MULTI, 1), mk_cand(1, 0), true);
 }
 
-// @harness c06_intersect_multi1_multi1 tier=quick kind=bounded bound="Multiple vectors of lengths 1 and 1" timeout=1200 unwindset="swap_nonoverlapping=10"
-// @ob CandidateValue::intersect of Multiple(len 1) with Multiple(len 1) in either order: exact for every probe, normalized
+// @harness c06_intersect_multi1_range_self tier=quick heavy=1 kind=bounded bound="Multiple vector of length 1" timeout=1200 unwindset="swap_nonoverlapping=10"
+// @ob CandidateValue::intersect of Multiple(len 1) with range with the Multiple as receiver: exact for every probe, invariant preserved, normalized
+#[kani::proof]
+#[kani::unwind(3)]
+pub(crate) fn c06_intersect_multi1_range_self() {
+    check_intersect(mk_cand(C_MULTI, 1), mk_cand(2, 0), false);
+}
+
+// @harness c06_intersect_multi1_range_other tier=quick heavy=1 kind=bounded bound="Multiple vector of length 1" timeout=1200 unwindset="swap_nonoverlapping=10"
+// @ob CandidateValue::intersect of Multiple(len 1) with range with the Multiple as argument: exact for every probe, invariant preserved, normalized
+#[kani::proof]
+#[kani::unwind(3)]
+pub(crate) fn c06_intersect_multi1_range_other() {
+    check_intersect(mk_cand(C_MULTI, 1), mk_cand(2, 0), true);
+}
+
+// @harness c06_intersect_multi1_all_self tier=quick heavy=1 kind=bounded bound="Multiple vector of length 1" timeout=1200 unwindset="swap_nonoverlapping=10"
+// @ob CandidateValue::intersect of Multiple(len 1) with all with the Multiple as receiver: exact for every probe, invariant preserved, normalized
+#[kani::proof]
+#[kani::unwind(3)]
+pub(crate) fn c06_intersect_multi1_all_self() {
+    check_intersect(mk_cand(C_MULTI, 1), mk_cand(3, 0), false);
+}
+
+// @harness c06_intersect_multi1_all_other tier=quick heavy=1 kind=bounded bound="Multiple vector of length 1" timeout=1200 unwindset="swap_nonoverlapping=10"
+// @ob CandidateValue::intersect of Multiple(len 1) with all with the Multiple as argument: exact for every probe, invariant preserved, normalized
+#[kani::proof]
+#[kani::unwind(3)]
+pub(crate) fn c06_intersect_multi1_all_other() {
+    check_intersect(mk_cand(C_MULTI, 1), mk_cand(3, 0), true);
+}
+
+// @harness c06_intersect_multi1_multi1 tier=quick heavy=1 kind=bounded bound="Multiple vectors of lengths 1 and 1" timeout=1200 unwindset="swap_nonoverlapping=10"
+// @ob CandidateValue::intersect of Multiple(len 1) with Multiple(len 1) (receiver first): exact for every probe, normalized
 #[kani::proof]
 #[kani::unwind(3)]
 pub(crate) fn c06_intersect_multi1_multi1() {
-    check_intersect(mk_cand(C_MULTI, 1), mk_cand(C_MULTI, 1));
+    check_intersect(mk_cand(C_MULTI, 1), mk_cand(C_MULTI, 1), false);
 }
 
-// @harness c06_intersect_multi2_impossible tier=thorough heavy=1 kind=bounded bound="Multiple vector of length 2" timeout=1200 unwindset="swap_nonoverlapping=10"
-// @ob CandidateValue::intersect of Multiple(len 2) with impossible in either operand order: exact for every probe, invariant preserved, normalized
+// @harness c06_intersect_multi2_impossible_self tier=thorough heavy=1 kind=bounded bound="Multiple vector of length 2" timeout=1200 unwindset="swap_nonoverlapping=10"
+// @ob CandidateValue::intersect of Multiple(len 2) with impossible with the Multiple as receiver: exact for every probe, invariant preserved, normalized
 #[kani::proof]
 #[kani::unwind(4)]
-pub(crate) fn c06_intersect_multi2_impossible() {
-    check_intersect(mk_cand(C_MULTI, 2), mk_cand(0, 0));
+pub(crate) fn c06_intersect_multi2_impossible_self() {
+    check_intersect(mk_cand(C_MULTI, 2), mk_cand(0, 0), false);
 }
 
-// @harness c06_intersect_multi2_single tier=thorough heavy=1 kind=bounded bound="Multiple vector of length 2" timeout=1200 unwindset="swap_nonoverlapping=10"
-// @ob CandidateValue::intersect of Multiple(len 2) with single in either operand order: exact for every probe, invariant preserved, normalized
+// @harness c06_intersect_multi2_impossible_other tier=thorough heavy=1 kind=bounded bound="Multiple vector of length 2" timeout=1200 unwindset="swap_nonoverlapping=10"
+// @ob CandidateValue::intersect of Multiple(len 2) with impossible with the Multiple as argument: exact for every probe, invariant preserved, normalized
 #[kani::proof]
 #[kani::unwind(4)]
-pub(crate) fn c06_intersect_multi2_single() {
-    check_intersect(mk_cand(C_MULTI, 2), mk_cand(1, 0));
+pub(crate) fn c06_intersect_multi2_impossible_other() {
+    check_intersect(mk_cand(C_MULTI, 2), mk_cand(0, 0), true);
 }
 
-// @harness c06_intersect_multi2_all tier=thorough heavy=1 kind=bounded bound="Multiple vector of length 2" timeout=1200 unwindset="swap_nonoverlapping=10"
-// @ob CandidateValue::intersect of Multiple(len 2) with all in either operand order: exact for every probe, invariant preserved, normalized
+// @harness c06_intersect_multi2_single_self tier=thorough heavy=1 kind=bounded bound="Multiple vector of length 2" timeout=1200 unwindset="swap_nonoverlapping=10"
+// @ob CandidateValue::intersect of Multiple(len 2) with single with the Multiple as receiver: exact for every probe, invariant preserved, normalized
 #[kani::proof]
 #[kani::unwind(4)]
-pub(crate) fn c06_intersect_multi2_all() {
-    check_intersect(mk_cand(C_MULTI, 2), mk_cand(3, 0));
+pub(crate) fn c06_intersect_multi2_single_self() {
+    check_intersect(mk_cand(C_MULTI, 2), mk_cand(1, 0), false);
 }
 
-// @harness c06_intersect_multi2_multi1 tier=thorough heavy=1 kind=bounded bound="Multiple vectors of lengths 2 and 1" timeout=1200 unwindset="swap_nonoverlapping=10"
-// @ob CandidateValue::intersect of Multiple(len 2) with Multiple(len 1) in either order: exact for every probe, normalized
+// @harness c06_intersect_multi2_single_other tier=thorough heavy=1 kind=bounded bound="Multiple vector of length 2" timeout=1200 unwindset="swap_nonoverlapping=10"
+// @ob CandidateValue::intersect of Multiple(len 2) with single with the Multiple as argument: exact for every probe, invariant preserved, normalized
 #[kani::proof]
 #[kani::unwind(4)]
-pub(crate) fn c06_intersect_multi2_multi1() {
-    check_intersect(mk_cand(C_MULTI, 2), mk_cand(C_MULTI, 1));
+pub(crate) fn c06_intersect_multi2_single_other() {
+    check_intersect(mk_cand(C_MULTI, 2), mk_cand(1, 0), true);
+}
+
+// @harness c06_intersect_multi2_all_self tier=thorough heavy=1 kind=bounded bound="Multiple vector of length 2" timeout=1200 unwindset="swap_nonoverlapping=10"
+// @ob CandidateValue::intersect of Multiple(len 2) with all with the Multiple as receiver: exact for every probe, invariant preserved, normalized
+#[kani::proof]
+#[kani::unwind(4)]
+pub(crate) fn c06_intersect_multi2_all_self() {
+    check_intersect(mk_cand(C_MULTI, 2), mk_cand(3, 0), false);
+}
+
+// @harness c06_intersect_multi2_all_other tier=thorough heavy=1 kind=bounded bound="Multiple vector of length 2" timeout=1200 unwindset="swap_nonoverlapping=10"
+// @ob CandidateValue::intersect of Multiple(len 2) with all with the Multiple as argument: exact for every probe, invariant preserved, normalized
+#[kani::proof]
+#[kani::unwind(4)]
+pub(crate) fn c06_intersect_multi2_all_other() {
+    check_intersect(mk_cand(C_MULTI, 2), mk_cand(3, 0), true);
+}
+
+// @harness c06_intersect_multi2_multi1_self tier=thorough heavy=1 kind=bounded bound="Multiple vectors of lengths 2 and 1" timeout=1200 unwindset="swap_nonoverlapping=10"
+// @ob CandidateValue::intersect of Multiple(len 2) with Multiple(len 1) (receiver first): exact for every probe, normalized
+#[kani::proof]
+#[kani::unwind(4)]
+pub(crate) fn c06_intersect_multi2_multi1_self() {
+    check_intersect(mk_cand(C_MULTI, 2), mk_cand(C_MULTI, 1), false);
+}
+
+// @harness c06_intersect_multi2_multi1_other tier=thorough heavy=1 kind=bounded bound="Multiple vectors of lengths 2 and 1" timeout=1200 unwindset="swap_nonoverlapping=10"
+// @ob CandidateValue::intersect of Multiple(len 2) with Multiple(len 1) (argument first): exact for every probe, normalized
+#[kani::proof]
+#[kani::unwind(4)]
+pub(crate) fn c06_intersect_multi2_multi1_other() {
+    check_intersect(mk_cand(C_MULTI, 2), mk_cand(C_MULTI, 1), true);
 }
 
 // @harness c06_intersect_multi2_multi2 tier=thorough heavy=1 kind=bounded bound="Multiple vectors of lengths 2 and 2" timeout=1200 unwindset="swap_nonoverlapping=10"
-// @ob CandidateValue::intersect of Multiple(len 2) with Multiple(len 2) in either order: exact for every probe, normalized
+// @ob CandidateValue::intersect of Multiple(len 2) with Multiple(len 2) (receiver first): exact for every probe, normalized
 #[kani::proof]
 #[kani::unwind(4)]
 pub(crate) fn c06_intersect_multi2_multi2() {
-    check_intersect(mk_cand(C_MULTI, 2), mk_cand(C_MULTI, 2));
+    check_intersect(mk_cand(C_MULTI, 2), mk_cand(C_MULTI, 2), false);
 }
 
-// @harness c06_intersect_multi3_all tier=thorough heavy=1 kind=bounded bound="Multiple vector of length 3" timeout=1200 unwindset="swap_nonoverlapping=10"
-// @ob CandidateValue::intersect of Multiple(len 3) with all in either operand order: exact for every probe, invariant preserved, normalized
+// @harness c06_intersect_multi3_all_self tier=thorough heavy=1 kind=bounded bound="Multiple vector of length 3" timeout=1200 unwindset="swap_nonoverlapping=10"
+// @ob CandidateValue::intersect of Multiple(len 3) with all with the Multiple as receiver: exact for every probe, invariant preserved, normalized
 #[kani::proof]
 #[kani::unwind(5)]
-pub(crate) fn c06_intersect_multi3_all() {
-    check_intersect(mk_cand(C_MULTI, 3), mk_cand(3, 0));
+pub(crate) fn c06_intersect_multi3_all_self() {
+    check_intersect(mk_cand(C_MULTI, 3), mk_cand(3, 0), false);
+}
+
+// @harness c06_intersect_multi3_all_other tier=thorough heavy=1 kind=bounded bound="Multiple vector of length 3" timeout=1200 unwindset="swap_nonoverlapping=10"
+// @ob CandidateValue::intersect of Multiple(len 3) with all with the Multiple as argument: exact for every probe, invariant preserved, normalized
+#[kani::proof]
+#[kani::unwind(5)]
+pub(crate) fn c06_intersect_multi3_all_other() {
+    check_intersect(mk_cand(C_MULTI, 3), mk_cand(3, 0), true);
 }
 
 // @harness c06_intersect_multi3_multi3 tier=thorough heavy=1 kind=bounded bound="Multiple vectors of lengths 3 and 3" timeout=1200 unwindset="swap_nonoverlapping=10"
-// @ob CandidateValue::intersect of Multiple(len 3) with Multiple(len 3) in either order: exact for every probe, normalized
+// @ob CandidateValue::intersect of Multiple(len 3) with Multiple(len 3) (receiver first): exact for every probe, normalized
 #[kani::proof]
 #[kani::unwind(5)]
 pub(crate) fn c06_intersect_multi3_multi3() {
-    check_intersect(mk_cand(C_MULTI, 3), mk_cand(C_MULTI, 3));
+    check_intersect(mk_cand(C_MULTI, 3), mk_cand(C_MULTI, 3), false);
 }
 
-// @harness c06_exclude_normalize_multi tier=quick kind=bounded bound="Multiple vectors of length <= 3" timeout=900
-// @ob exclude_single_value on Multiple removes exactly the values equal to x; normalize on Multiple preserves membership and yields Impossible/Single for lengths 0/1
+// @harness c06_exclude_multi0 tier=quick kind=bounded bound="Multiple vector of length 0" timeout=1200
+// @ob exclude_single_value on Multiple of length 0 removes exactly the values equal to x and leaves a normal form (Impossible/Single for 0/1 remaining values, no value listed twice)
+#[kani::proof]
+#[kani::unwind(2)]
+pub(crate) fn c06_exclude_multi0() {
+    let mut c = mk_cand(C_MULTI, 0);
+    let (p, x) = (any_probe(), any_probe());
+    let before = mem(&c, &p);
+    c.exclude_single_value(&x);
+    assert!(mem(&c, &p) == (before && p != x), "Multiple minus x is exact");
+    assert!(normal(&c), "normal form");
+    core::mem::forget(c);
+}
+
+// @harness c06_exclude_multi1 tier=quick kind=bounded bound="Multiple vector of length 1" timeout=1200
+// @ob exclude_single_value on Multiple of length 1 removes exactly the values equal to x and leaves a normal form (Impossible/Single for 0/1 remaining values, no value listed twice)
+#[kani::proof]
+#[kani::unwind(3)]
+pub(crate) fn c06_exclude_multi1() {
+    let mut c = mk_cand(C_MULTI, 1);
+    let (p, x) = (any_probe(), any_probe());
+    let before = mem(&c, &p);
+    c.exclude_single_value(&x);
+    assert!(mem(&c, &p) == (before && p != x), "Multiple minus x is exact");
+    assert!(normal(&c), "normal form");
+    core::mem::forget(c);
+}
+
+// @harness c06_exclude_multi2 tier=quick kind=bounded bound="Multiple vector of length 2" timeout=1200
+// @ob exclude_single_value on Multiple of length 2 removes exactly the values equal to x and leaves a normal form (Impossible/Single for 0/1 remaining values, no value listed twice)
+#[kani::proof]
+#[kani::unwind(4)]
+pub(crate) fn c06_exclude_multi2() {
+    let mut c = mk_cand(C_MULTI, 2);
+    let (p, x) = (any_probe(), any_probe());
+    let before = mem(&c, &p);
+    c.exclude_single_value(&x);
+    assert!(mem(&c, &p) == (before && p != x), "Multiple minus x is exact");
+    assert!(normal(&c), "normal form");
+    core::mem::forget(c);
+}
+
+// @harness c06_exclude_multi3 tier=thorough heavy=1 kind=bounded bound="Multiple vector of length 3" timeout=1200
+// @ob exclude_single_value on Multiple of length 3 removes exactly the values equal to x and leaves a normal form (Impossible/Single for 0/1 remaining values, no value listed twice)
 #[kani::proof]
 #[kani::unwind(5)]
-pub(crate) fn c06_exclude_normalize_multi() {
-    let n = vk::any_u8();
-    split_n!(n, len => {
-        let mut c = mk_cand(C_MULTI, len);
-        let (p, x) = (any_probe(), any_probe());
-        let before = mem(&c, &p);
-        if vk::any_bool() {
-            c.exclude_single_value(&x);
-            assert!(mem(&c, &p) == (before && p != x), "Multiple minus x is exact");
-        } else {
-            c.normalize();
-            assert!(mem(&c, &p) == before, "normalize preserves membership");
-        }
-        assert!(normal(&c), "normal form");
-        core::mem::forget(c);
-    });
+pub(crate) fn c06_exclude_multi3() {
+    let mut c = mk_cand(C_MULTI, 3);
+    let (p, x) = (any_probe(), any_probe());
+    let before = mem(&c, &p);
+    c.exclude_single_value(&x);
+    assert!(mem(&c, &p) == (before && p != x), "Multiple minus x is exact");
+    assert!(normal(&c), "normal form");
+    core::mem::forget(c);
+}
+
+// @harness c06_normalize_multi0 tier=quick kind=bounded bound="Multiple vector of length 0" timeout=1200
+// @ob normalize on Multiple of length 0 preserves membership and yields a normal form: Impossible/Single for 0/1 distinct values, and no value listed twice (an adapter that iterates over the candidates must not see one twice)
+#[kani::proof]
+#[kani::unwind(2)]
+pub(crate) fn c06_normalize_multi0() {
+    let mut c = mk_cand(C_MULTI, 0);
+    let p = any_probe();
+    let before = mem(&c, &p);
+    c.normalize();
+    assert!(mem(&c, &p) == before, "normalize preserves membership");
+    assert!(normal(&c), "normal form");
+    core::mem::forget(c);
+}
+
+// @harness c06_normalize_multi1 tier=quick kind=bounded bound="Multiple vector of length 1" timeout=1200
+// @ob normalize on Multiple of length 1 preserves membership and yields a normal form: Impossible/Single for 0/1 distinct values, and no value listed twice (an adapter that iterates over the candidates must not see one twice)
+#[kani::proof]
+#[kani::unwind(3)]
+pub(crate) fn c06_normalize_multi1() {
+    let mut c = mk_cand(C_MULTI, 1);
+    let p = any_probe();
+    let before = mem(&c, &p);
+    c.normalize();
+    assert!(mem(&c, &p) == before, "normalize preserves membership");
+    assert!(normal(&c), "normal form");
+    core::mem::forget(c);
+}
+
+// @harness c06_normalize_multi2 tier=quick kind=bounded bound="Multiple vector of length 2" timeout=1200
+// @ob normalize on Multiple of length 2 preserves membership and yields a normal form: Impossible/Single for 0/1 distinct values, and no value listed twice (an adapter that iterates over the candidates must not see one twice)
+#[kani::proof]
+#[kani::unwind(4)]
+pub(crate) fn c06_normalize_multi2() {
+    let mut c = mk_cand(C_MULTI, 2);
+    let p = any_probe();
+    let before = mem(&c, &p);
+    c.normalize();
+    verif_cover!(matches!(c, CandidateValue::Single(_)), "equal values collapse to Single");
+    assert!(mem(&c, &p) == before, "normalize preserves membership");
+    assert!(normal(&c), "normal form");
+    core::mem::forget(c);
+}
+
+// @harness c06_normalize_multi3 tier=thorough heavy=1 kind=bounded bound="Multiple vector of length 3" timeout=1200
+// @ob normalize on Multiple of length 3 preserves membership and yields a normal form: Impossible/Single for 0/1 distinct values, and no value listed twice (an adapter that iterates over the candidates must not see one twice)
+#[kani::proof]
+#[kani::unwind(5)]
+pub(crate) fn c06_normalize_multi3() {
+    let mut c = mk_cand(C_MULTI, 3);
+    let p = any_probe();
+    let before = mem(&c, &p);
+    c.normalize();
+    verif_cover!(matches!(c, CandidateValue::Single(_)), "equal values collapse to Single");
+    assert!(mem(&c, &p) == before, "normalize preserves membership");
+    assert!(normal(&c), "normal form");
+    core::mem::forget(c);
 }
 
 // @harness c06_negative_control tier=quick kind=complete expect=fail
